@@ -144,7 +144,7 @@ def handle (cmd : String) (hd : List String) (vs : List (List K)) : Reply K :=
           let x := vecAt vs 0
           let y := vecAt vs 1
           if natAt hd 0 ≥ max x.length y.length then .error "assert"
-          else .ok [correlation x y (natAt hd 0) nm (scalAt vs 2)]
+          else .ok [correlation x y (natAt hd 0) nm (meanPow x (max x.length y.length))]
       | none => .error "value"
   | "xcorr" =>
       match normOf (strAt hd 1) with
@@ -152,7 +152,7 @@ def handle (cmd : String) (hd : List String) (vs : List (List K)) : Reply K :=
           let x := vecAt vs 0
           let y := vecAt vs 1
           if x.length ≠ y.length || natAt hd 0 > x.length then .error "assert"
-          else .ok [xcorr x y (natAt hd 0) nm (scalAt vs 2)]
+          else .ok [xcorr x y (natAt hd 0) nm (meanPow x x.length)]
       | none => .error "value"
   | "corrmtx" =>
       match methodOf (strAt hd 1) with
